@@ -267,9 +267,6 @@ func (lb *LoadBalancer) setupCircuitBreaker(cfg *config.Config) {
 	}
 
 	// Set defaults
-	if cbSettings.MaxRequests == 0 {
-		cbSettings.MaxRequests = 1
-	}
 	if cbSettings.Interval == 0 {
 		cbSettings.Interval = time.Minute
 	}
@@ -281,6 +278,10 @@ func (lb *LoadBalancer) setupCircuitBreaker(cfg *config.Config) {
 	}
 	if cbSettings.SuccessThreshold == 0 {
 		cbSettings.SuccessThreshold = 1
+	}
+	// The half-open state needs at least success_threshold trials to be able to close
+	if cbSettings.MaxRequests == 0 {
+		cbSettings.MaxRequests = cbSettings.SuccessThreshold
 	}
 
 	lb.circuitBreaker = circuitbreaker.NewCircuitBreaker(cbSettings)
